@@ -279,6 +279,18 @@ def check_main(rep, prog, main, algo, pos=False):
                 rep.undecided('R11a', hund[0][0], main, what, 'the validator is applied inside the helper `%s`: %s' % (hund[0][0].callee['name'], hund[0][1]))
                 continue
         if not vcalls:
+            # the validator may be called from a lambda of the driver (a table of checks walked by a loop, a std::function): the call exists,
+            # how its result steers the exit is outside the region-based reasoning
+            in_lambda = None
+            for n_ in main.walk():
+                if n_.k == 'LambdaExpr':
+                    for op_ in n_.j.get('lambda_ops', ()):
+                        lf_ = prog.fn_of_fref(op_)
+                        if lf_ is not None and lf_.body is not None and any(ex.is_call(m_, vname) for m_ in lf_.walk()):
+                            in_lambda = n_
+            if in_lambda is not None:
+                rep.undecided('R11a', in_lambda, main, what, 'the validator is applied inside a lambda of the driver (`%s`): its use as a gate is not traced' % in_lambda.text(40))
+                continue
             rep.violation('R11a', rd, main, what, 'the validator is never applied to the graph read from the file',
                           key='R11a|%s|%s|missing' % (tu, vname))
             continue
